@@ -5,6 +5,7 @@ operands are themselves reachable registries), canonical state = (registry prefi
 lock-step with a dict reference model; every canonical state is attached to both dispatchers and probed by dispatching:
 every modelled name must reach exactly its function, every near-miss / private / dunder / non-callable name must get -32601.
 """
+import enum
 import itertools
 import json
 
@@ -89,7 +90,14 @@ OPS = [('add', 'f1', None), ('add', 'f2', None), ('add', 'f1', 'x'), ('add', 'f2
        # the decorator-factory spellings @registry.add(name=..) / @registry.view(prefix=..), and the base view on its own
        ('add_deco', 'f2', 'x'), ('view_deco', 'v'), ('view_deco', None), ('viewbase', None), ('view2', None),
        # ONE decorator object obtained from registry.add() and applied to two functions
-       ('add_deco2', 'f1', 'f2'), ('add_deco2', 'f2', 'f3')]
+       ('add_deco2', 'f1', 'f2'), ('add_deco2', 'f2', 'f3'),
+       # the explicit name is a member of a (str, Enum) enumeration of method names: its VALUE is the name
+       ('add_enum', 'f3', 'e')]
+
+
+class RpcName(str, enum.Enum):
+    e = 'e'
+    x = 'x'
 
 
 def join(*parts):
@@ -102,6 +110,8 @@ def apply_model(model, prefix, op):
     kind = op[0]
     if kind == 'add':
         m[join(prefix, op[2] or op[1])] = op[1]
+    elif kind == 'add_enum':
+        m[join(prefix, op[2])] = op[1]
     elif kind == 'add_methods':
         m[join(prefix, op[1])] = op[1]
     elif kind == 'add_method_obj':
@@ -132,6 +142,8 @@ def apply_real(reg, op):
             reg.add(FUNCS[op[1]])
         else:
             reg.add(FUNCS[op[1]], name=op[2])
+    elif kind == 'add_enum':
+        reg.add(FUNCS[op[1]], name=RpcName[op[2]])
     elif kind == 'add_methods':
         reg.add_methods(FUNCS[op[1]])
     elif kind == 'add_method_obj':
@@ -452,6 +464,78 @@ def run_state(case, rec):
     return tuple(obs)
 
 
+def gen_threads(ctx):
+    K = 8
+    for how in ('add', 'add_methods', 'merge', 'view'):
+        for k in range(K):
+            yield dict(part='threads', how=how, budget=ctx.pick(1, 2), shard=(k, K, 1))
+
+
+def run_threads_case(case, rec):
+    """E5: a dispatcher serves a request for a registered name in one thread while another thread registers that very name again (the
+    documented way to replace a method): at every schedule the request is answered by the old or by the new function, never -32601"""
+    import os
+    from mc.core import explore_choices
+    from mc.threadsched import run_threads
+    pj = os.path.dirname(os.path.abspath(pjrpc.__file__)) + os.sep
+    sched = 0
+    how = case['how']
+    name = 'V.pub1' if how == 'view' else 'f1'
+    text = json.dumps({'jsonrpc': '2.0', 'id': 1, 'method': 'pub1' if how == 'view' else 'f1'})
+
+    def once(env):
+        with debug_logging(False):
+            d = pjrpc.server.Dispatcher()
+            if how == 'view':
+                d.view(V)
+            else:
+                d.add(f1)
+                d.add(f2)
+
+            def again():
+                if how == 'add':
+                    d.add(f1)
+                elif how == 'add_methods':
+                    d.add_methods(f1)
+                elif how == 'merge':
+                    r = MethodRegistry()
+                    r.add(f1)
+                    d.registry.merge(r)
+                else:
+                    d.view(V)
+
+            def serve():
+                return d.dispatch(text, context={})
+            res, tr = run_threads([again, serve], env, [pj])
+        return res, tr
+    for choices, (res, tr) in explore_choices(once, budget=case['budget'], shard=tuple(case['shard']), max_exec=400000):
+        sched += 1
+        rec.transitions += tr.points
+        k, v = res[1]
+        ok = False
+        if k == 'ok' and v:
+            try:
+                doc = json.loads(v[0])
+                ok = 'result' in doc
+            except Exception:   # noqa
+                ok = False
+        if not ok or res[0][0] != 'ok':
+            rec.violation('C15:threads:a registered name is not reachable while it is registered again in another thread', dict(case, choices=list(choices)),
+                          expected='result of %s' % name, observed=(repr(res[0])[:200], repr(v)[:300]))
+            break
+    rec.states += sched
+    rec.traces += sched
+    rec.nontrivial_n += sched
+    rec.counters['thread schedules'] += sched
+    return sched
+
+
+def run_any(case, rec):
+    if case.get('part') == 'threads':
+        return run_threads_case(case, rec)
+    return run_state(case, rec)
+
+
 def run(ctx):
     max_cost = ctx.pick(4, 6)
     states, transitions, viols = bfs(max_cost)
@@ -466,11 +550,12 @@ def run(ctx):
                 'function map) (sound: the future of a registry depends only on that map and its prefix); each of the %d canonical states '
                 'is attached to Dispatcher and AsyncDispatcher (plain and with the dispatcher\'s own add / view / add_methods calls) and '
                 'probed with every registered name and ~12 near misses per name + private / dunder / non-callable members. '
-                'non-trivial = state whose history contains a merge' % (max_cost, len(states)))
+                'non-trivial = state whose history contains a merge. + E5: one thread registers an existing name again (add / add_methods / merge / view) while another '
+                'dispatches a request for it, a switch possible at every source line of pjrpc, <= %d preemptions: never -32601' % (max_cost, len(states), ctx.pick(1, 2)))
     ctx.assumptions += ['add_methods(Method object) is exercised on unprefixed registries and dispatchers only',
                         'functions are registered under their __name__ (aliases / lambdas are outside the alphabet)']
     ctx.bounds.update(max_cost=max_cost, canonical_states=len(states), search_transitions=transitions)
-    ctx.run_cases('C15', lambda: (dict(index=i) for i in range(len(states))), run_state, recheck_every=499)
+    ctx.run_cases('C15', lambda: itertools.chain((dict(index=i) for i in range(len(states))), gen_threads(ctx)), run_any, recheck_every=499)
     ctx.guard('merged and prefixed registries reached', ctx.rec.nontrivial_n > 20 and len(states) > 100, (ctx.rec.nontrivial_n, len(states)))
 
 
